@@ -315,12 +315,18 @@ def emitAfter (p0 : Pos) (n : Nat) (tok : Token) (stack : List State) : Step :=
   | .panic s => .panic s
   | .ok (_, p) => .emit tok (mkSpan p0 p) p stack
 
+/-- `match rest.as_bytes().get(..2) { Some(b"//") => …, _ => None }` (lexer.rs:556-567) -/
+def lookupOp2 (rest : Bytes) : Option Op :=
+  match rest with
+  | a :: b :: _ => ops2.lookup [a, b]
+  | _ => none
+
 /-- lexer.rs:549-635: operators, strings, numbers, idents (after the end-delimiter check) -/
 def lexExprToken (p0 : Pos) (stack : List State) : Step :=
   let rest := p0.rest
   if rest.take spreadBytes.length = spreadBytes then emitAfter p0 spreadBytes.length (.op .Spread) stack
   else
-    match (match rest with | a :: b :: _ => ops2.lookup [a, b] | _ => none) with
+    match lookupOp2 rest with
     | some o => emitAfter p0 2 (.op o) stack
     | none =>
       match rest.head? with
